@@ -165,7 +165,8 @@ def meshLod : P MeshLod := do
 structure Mesh where
   /-- kept as `u16`: the sizes of the vertex / sub-mesh vectors are bounded by the type -/
   vertexCount : UInt16
-  indexCount : Nat
+  /-- kept as `u32` (`Vec::with_capacity(index_count as usize)` cannot overflow `isize`) -/
+  indexCount : UInt32
   submeshIndex : Nat
   submeshCount : UInt16
   startIndex : Nat
@@ -181,7 +182,7 @@ structure Mesh where
 def mesh : P Mesh := do
   let vertexCount ← P.u16le
   P.skip 2
-  let indexCount ← u32Nat
+  let indexCount ← P.u32le
   let _ ← P.u16le                               -- material_index
   let submeshIndex ← u16Nat
   let submeshCount ← P.u16le
@@ -394,17 +395,21 @@ def shapeValuesLoop (indices : Array Nat) (vertexCount : Nat) : List ShapeValue 
     Res.require (decide (base < vertexCount)) .index            -- `morphed_vertices[base_index]`
     shapeValuesLoop indices vertexCount r
 
+/-- the shape values of `sh` that apply to mesh `me`: shape meshes `start .. start+cnt` with the
+mesh's `start_index`, their value ranges, filtered to the mesh's index range (as `u16`) -/
+def shapeValuesOf (m : Model) (start cnt : Nat) (me : Mesh) : List ShapeValue :=
+  let affected := ((m.shapeMeshes.drop start).take cnt).filter (fun sm => sm.meshIndexOffset == me.startIndex)
+  let lo := me.startIndex % 65536
+  let hi := (me.startIndex + me.indexCount.toNat) % 65536      -- `wrapping_add(..) as u16`
+  (affected.flatMap (fun sm => (m.shapeValues.drop sm.valueOffset).take sm.valueCount)).filter
+    (fun v => decide (lo ≤ v.baseIndicesIndex) && decide (v.baseIndicesIndex < hi))
+
 def shapeBody (m : Model) (i : Nat) (me : Mesh) (indices : Array Nat) (sh : Shape) : Res Unit := do
   let start ← shapeStartAt sh i
   let cnt ← shapeCountAt sh i
-  let affected := ((m.shapeMeshes.drop start).take cnt).filter (fun sm => sm.meshIndexOffset == me.startIndex)
-  let lo := me.startIndex % 65536
-  let hi := (me.startIndex + me.indexCount) % 65536      -- `wrapping_add(..) as u16`
-  let values := (affected.flatMap (fun sm => (m.shapeValues.drop sm.valueOffset).take sm.valueCount)).filter
-    (fun v => decide (lo ≤ v.baseIndicesIndex) && decide (v.baseIndicesIndex < hi))
   vecAlloc me.vertexCount.toNat 92                         -- `vec![Vertex::default(); vertices.len()]`
-  if values.isEmpty then .ok () else do
-    shapeValuesLoop indices me.vertexCount.toNat values
+  if (shapeValuesOf m start cnt me).isEmpty then .ok () else do
+    shapeValuesLoop indices me.vertexCount.toNat (shapeValuesOf m start cnt me)
     readName m.hd.strings sh.stringOffset
 
 def shapesLoop (m : Model) (i : Nat) (me : Mesh) (indices : Array Nat) : List Shape → Res Unit
@@ -434,10 +439,10 @@ def meshBody (w : Bytes) (len : Nat) (m : Model) (i : Nat) (lod : MeshLod) (j : 
   let io ← indexOffsetAt m.fh i
   let ipos := io + me.startIndex * 2
   -- repaired: the indices must be in the file before the buffer is reserved
-  Res.guard (decide (me.indexCount ≤ (len - ipos) / 2))
-  vecAlloc me.indexCount 2
-  let raw := (w.drop ipos).take (2 * me.indexCount)
-  Res.guard (decide (raw.length = 2 * me.indexCount))
+  Res.guard (decide (me.indexCount.toNat ≤ (len - ipos) / 2))
+  vecAlloc me.indexCount.toNat 2
+  let raw := (w.drop ipos).take (2 * me.indexCount.toNat)
+  Res.guard (decide (raw.length = 2 * me.indexCount.toNat))
   let indices := (leU16s raw).toArray
   vecAlloc me.submeshCount.toNat 16                        -- `Vec::<SubMesh>::with_capacity`
   -- `for t in 0..submesh_count { model.submeshes.get(submesh_index + t)? }` in closed form
@@ -468,5 +473,53 @@ def post (w : Bytes) (m : Model) : Res Unit := do
 def mdl (b : Bytes) : Res Unit := do
   let m ← P.run modelFile b
   post b m
+
+/-! ## retained memory — the input class of the recorded finding `mdl-overlap-amplification`
+
+Every single request of the reader is within the budget (`c18_mdl_alloc`), but nothing stops a file
+from pointing many names / meshes / levels of detail / vertex streams at the **same** bytes
+(stride 0, overlapping ranges, every lod naming the same mesh), and every shape that touches a mesh
+keeps a dense copy of all its vertices: the memory *retained* by the result is not bounded by the
+input size.  `retainedBound` is an upper bound of what the parts and names can retain (whether or
+not the run completes); the driver tags an input `kf:mdl-overlap-amplification` when it exceeds
+`2^24`.  Outside that class the retained memory is within the budget: the binrw stage holds a small
+multiple of the input. -/
+
+def nameLen (strings : Bytes) (offset : Nat) : Nat := ((strings.drop offset).takeWhile (· != 0)).length
+
+def start3 (sh : Shape) : Nat → Nat | 0 => sh.s0 | 1 => sh.s1 | 2 => sh.s2 | _ => 0
+def count3 (sh : Shape) : Nat → Nat | 0 => sh.c0 | 1 => sh.c1 | 2 => sh.c2 | _ => 0
+
+/-- vertices + one kept morph copy per applicable shape (+ its name), indices,
+sub-meshes, raw vertex streams (`Vec<u8>` grown by `push`: capacity ≤ 2 × length) -/
+def partRetained (len : Nat) (m : Model) (i : Nat) (me : Mesh) : Nat :=
+  let vc := me.vertexCount.toNat
+  let morphs := m.shapes.filter (fun sh => !(shapeValuesOf m (start3 sh i) (count3 sh i) me).isEmpty)
+  let names := morphs.foldl (fun a sh => a + 2 * nameLen m.hd.strings sh.stringOffset + 64) 0
+  vc * 92 * (1 + morphs.length) + names
+    + (if me.indexCount.toNat ≤ len / 2 then me.indexCount.toNat * 2 else 0)
+    + me.submeshCount.toNat * 16
+    + 2 * vc * ((if me.streamCount > 0 then me.st0 else 0) + (if me.streamCount > 1 then me.st1 else 0)
+        + (if me.streamCount > 2 then me.st2 else 0))
+
+def lodRetained (len : Nat) (m : Model) (i : Nat) : Nat :=
+  match lodAt m i with
+  | none => 0
+  | some lod =>
+    (List.range lod.meshCount).foldl (fun a t =>
+      match m.meshes[lod.meshIndex + t]? with
+      | some me => a + partRetained len m i me + 256
+      | none => a) 0
+
+def retainedBound (len : Nat) (m : Model) : Nat :=
+  (m.boneNameOffsets ++ m.materialNameOffsets).foldl (fun a o => a + 2 * nameLen m.hd.strings o) 0
+    + (List.range (min m.hd.lodCount 3)).foldl (fun a i => a + lodRetained len m i) 0
+
+/-- membership in the class of the finding (false when the binrw stage fails) -/
+def amplified (b : Bytes) : Bool :=
+  match (P.run modelFile b).out with
+  -- + one transient morph copy (at most 65535 vertices of 92 bytes)
+  | .ok m => decide (retainedBound b.length m + 65535 * 92 > 16777216)
+  | _ => false
 
 end Physis.C18Mdl
